@@ -259,6 +259,21 @@ M = [
     ('filelike-read-does-not-advance', 'C14', Z, "        r = self.buf[self.pos:newpos]\n\n        self.pos = newpos\n", "        r = self.buf[self.pos:newpos]\n"),
     ('index-load-guard-negated', 'C14', RL, "            if not self._indexLoaded:\n", "            if self._indexLoaded:\n"),
     ('index-file-exists-negated', 'C14', RL, "        if os.path.exists(indexFile):\n", "        if not os.path.exists(indexFile):\n"),
+    ('ignore-set-with-newline', 'C11', L, "    t_ignore = ' \\t'\n", "    t_ignore = ' \\t\\n'\n"),
+    ('macro-body-or-end-star', 'C11', L, "        r'.+?(?=END)'\n", "        r'(?:[^E]*|E)*?(?=END)'\n"),
+    ('trap-reference-needs-description', 'C02', P, "                p[7],  # reference\n                p[9])  # NUMBER", "                p[6] and p[7],  # reference\n                p[9])  # NUMBER"),
+    ('varpart-sorted', 'C02', P, "        p[0] = p[1] and p[3] or []\n\n    def p_VarTypes", "        p[0] = p[1] and sorted(p[3]) or []\n\n    def p_VarTypes"),
+    ('objects-deduplicated', 'C06', P, "            p[0] = ('Objects', p[1][1] + [p[3]])", "            p[0] = ('Objects', [o for o in p[1][1] if o != p[3]] + [p[3]])"),
+    ('template-scalar-kind-by-access', 'C04', T, "_{{ symbol|replace('-', '_')|capfirst }}_Object = MibScalar\n", "{% if definition['maxaccess'] == 'not-accessible' %}\n_{{ symbol|replace('-', '_')|capfirst }}_Object = MibTableColumn\n{% else %}\n_{{ symbol|replace('-', '_')|capfirst }}_Object = MibScalar\n{% endif %}\n"),
+    ('template-status-via-tojson', 'C15', T, "    {{ symbol|replace('-', '_') }}.setUnits(\"{{ definition['units'] }}\")", "    {{ symbol|replace('-', '_') }}.setUnits({{ definition['units']|tojson }})"),
+    ('write-skipped-for-empty-borrowed-text', 'C07', C, "                if options.get('writeMibs', True):\n", "                if options.get('writeMibs', True) and len(mibData):\n"),
+    ('searcher-remembers-missing', 'C10', 'pysmi/searcher/pyfile.py', "        raise error.PySmiFileNotFoundError('no compiled file %s found' % mibname, searcher=self)", "        self._lastMissing = mibname\n        raise error.PySmiFileNotFoundError('no compiled file %s found' % mibname, searcher=self)"),
+    ('borrower-counts-requests', 'C19', 'pysmi/borrower/base.py', "        if 'exts' not in options:\n", "        self.genTexts = bool(options.get('genTexts'))\n        if 'exts' not in options:\n"),
+    ('import-map-seeded-from-const-imports', 'C16', I, "        # merging mib and constant imports\n", "        self._importMap['ifIndex'] = 'IF-MIB'\n        # merging mib and constant imports\n"),
+    ('symtable-import-map-default', 'C06', S, "                self._importMap.update(", "                self._importMap.setdefault('mib-2', 'SNMPv2-SMI')\n                self._importMap.update("),
+    ('groupby-in-genimports', 'C01', I, "        for module in sorted(imports):\n            symbols = []\n", "        import itertools\n        dict((k, list(g)) for k, g in itertools.groupby(imports, key=len))\n        for module in sorted(imports):\n            symbols = []\n"),
+    ('text-filter-only-when-given', 'C12', I, "        self.genRules['text'] = kwargs.get('genTexts', False)\n", "        if 'genTexts' in kwargs:\n            self.genRules['text'] = kwargs['genTexts']\n"),
+    ('subdirs-skip-hidden', 'C14', RL, "            if os.path.isdir(d):\n                dirs.extend(self.getSubdirs(d, recursive))", "            if os.path.isdir(d) and not os.path.basename(d).startswith('.'):\n                dirs.extend(self.getSubdirs(d, recursive))"),
     ('compliance-module-unguarded-subscript', 'C11', P, "        objects = p[3] and p[3][1] or []\n", "        objects = p[3][1]\n"),
 ]
 
